@@ -381,7 +381,7 @@ class Check(common.Check):
             a = self.g_list(rng, npre, 3, tuples=False)
             a = {'c': I.items(a)}
             return {'k': 'op', 'op': name, 'a': a, 'pre': pre}
-        name = rng.choice(list(I.BINOPS) + list(I.BINOPS) + I.BIN_METHODS)
+        name = rng.choice(list(I.BINOPS) + list(I.BINOPS) + I.BIN_METHODS + ['eq', 'ne'] * 3)
         shape = rng.random()
         if shape < 0.55:      # ChannelList on the left
             a = {'c': I.items(self.g_list(rng, npre, 3, tuples=False))}
